@@ -124,6 +124,20 @@ def run(tier, seed):
                 kind = "not-a-corner:perturbed"
                 Pc = Pc + 0.05 * (rng.normal(size=len(Pc)) + 1j * rng.normal(size=len(Pc))) * (np.abs(Pc) > 0)
             one(ctx, C, list(Pc), tol, kind, {"style": style, "source_phases": ph})
+    # two public calls of different kinds on the same numbers: an F-type completion of a real list first, then the P-type
+    # request for it - a real polynomial with |P(1)| < 1 is not a corner whatever was asked before
+    for L in ([0.2, 0.0, 0.5], [0.0, 0.3, 0.0, 0.4], [0.1, 0.0, -0.3, 0.0, 0.2], [0.0, 0.6], [0.25, 0.0, 0.1, 0.0, 0.05, 0.0, 0.3, 0.0, 0.2]):
+        for tol in ("default", 1e-6):
+            try:
+                with core.quiet():
+                    if tol == "default":
+                        C.completion_from_root_finding(np.array(L), coef_type="F")
+                    else:
+                        C.completion_from_root_finding(np.array(L), coef_type="F", tol=tol)
+                ctx.count("cross-kind:F-call-returned")
+            except Exception:  # noqa
+                ctx.count("cross-kind:F-call-raised")
+            one(ctx, C, [complex(x) for x in L], tol, "not-a-corner:after-F-type-call", {"style": "real list", "source_phases": []})
     # smallest sizes: constant P (length 1).  |c| != 1 is not a corner (an even polynomial with |P(1)| != 1) and must be
     # rejected; whatever is returned for any constant is judged like every other result
     for c in [0.5, 0.3 + 0.2j, 2.0, 0.0, 1.0, -1.0, 1j, complex(math.cos(0.7), math.sin(0.7)), 0.999999, 1 - 1e-9]:
